@@ -577,7 +577,7 @@ theorem C09_copy_independent (env : Env) (w : St2) (op : Op) :
 
 /-- The copy of an object that satisfies the invariant satisfies it too, if the source carries
     no hashes and its piece length lies within the class-default bounds (`CopyOk`; the second
-    clause is open finding D09f). -/
+    clause is the observation formerly listed as D09f: outside the property, a copy starts like a torrent that was read). -/
 theorem C09_copy_inv (s : St) (h : Inv s) (hc : CopyOk s) : Inv (copyOf s) := by
   obtain ⟨_, _, _, hpl, hpp, hcont, _⟩ := h
   obtain ⟨hp, hb⟩ := hc
@@ -593,7 +593,7 @@ theorem C09_copy_inv (s : St) (h : Inv s) (hc : CopyOk s) : Inv (copyOf s) := by
     show match s.pieces with | none => True | some g => Current (copyOf s) g
     rw [hp]; exact True.intro
 
-/-- the counterexample behind D09f: explicit maximum 32 MiB, piece size 32 MiB; the copy has
+/-- the counterexample (observation formerly listed as D09f): explicit maximum 32 MiB, piece size 32 MiB; the copy has
     `piece_size > piece_size_max` -/
 example : Inv { Attrs.init with pmax := 33554432, pl := some 33554432 } ∧
     ¬ Inv (copyOf { Attrs.init with pmax := 33554432, pl := some 33554432 }) := by decide
